@@ -613,6 +613,12 @@ func (m *Machine) intrinsic(s *State, f *Frame, x *ssa.Call, name string, callee
 		f.env[x] = v
 		s.pc = append(s.pc, c.Cmp("bvsge", sc(v), c.BV(0, 64)), c.Cmp("bvslt", sc(v), n))
 		return nil, true
+	case strings.HasPrefix(name, "(*sync.Map)."):
+		if hf := m.hpkg.Func("zzSyncMap" + strings.TrimPrefix(name, "(*sync.Map).")); hf != nil {
+			m.stubs["sync.Map: association-list model in the harness runtime"]++
+			m.pushFrame(s, hf, args, nil, x)
+			return nil, true
+		}
 	case name == "context.WithCancel" || name == "context.WithTimeout" || name == "context.WithDeadline":
 		// cancellable contexts: model defined in the harness runtime (deadlines never fire by themselves)
 		m.stubs["context.WithCancel/WithTimeout: model context, deadlines never fire"]++
